@@ -154,6 +154,8 @@ _DC_INV = [
     ('exact', 'quiescent(old(self)@)'),
     ('exact', '(old(self)@.phase == Phase::Sleep && !has_slept) ==> self@ == old(self)@'),
     ('exact', '(old(self)@.phase == Phase::Sleep && has_slept) ==> exact_x(old(self)@, self@)'),
+    # C07 across calls: the state predicate exact_self (marked => reachable on the current graph) is kept by every step
+    ('dead_is_unreachable_xcall', 'exact_self(old(self)@) ==> exact_self(self@)'),
     ('asleep_no_progress', 'run_until == RunUntil::PayDebt ==> debt_pos(old(self)@.m)'),
     ('history', 'old(self)@.hist.len() <= self@.hist.len(), self@.hist.subrange(0, old(self)@.hist.len() as int) =~= old(self)@.hist'),
     ('stop_the_world', 'zero_work_factors(self@.m.fl) == zero_work_factors(old(self)@.m.fl)'),
@@ -173,6 +175,7 @@ _DC_LOOP_ENS = [
     ('finish_cycle', '(run_until == RunUntil::Stop && stop == Stop::FinishCycle) ==> self@.phase == Phase::Sleep'),
     ('exact', '(old(self)@.phase == Phase::Sleep && run_until == RunUntil::Stop && stop == Stop::FinishCycle) ==> exact_final(old(self)@, self@) && exact_final_shells(old(self)@, self@)'),
     ('dead_is_unreachable', '(old(self)@.phase == Phase::Sleep && run_until == RunUntil::Stop && stop == Stop::FullyMarked) ==> exact_marked(old(self)@, self@)'),
+    ('dead_is_unreachable_xcall', 'exact_self(old(self)@) ==> exact_self(self@)'),
     ('collect_debt_pays', '(run_until == RunUntil::PayDebt && stop == Stop::Full) ==> !debt_pos(self@.m)'),
     ('cycle_debt_pays', '(run_until == RunUntil::PayDebt && stop == Stop::FinishCycle) ==> !debt_pos(self@.m) || self@.phase == Phase::Sleep'),
     ('mark_debt_pays', '(run_until == RunUntil::PayDebt && stop == Stop::FullyMarked) ==> !debt_pos(self@.m) || self@.phase == Phase::Sweep || (self@.phase == Phase::Mark && !gray_remaining_spec(self@))'),
@@ -192,6 +195,10 @@ V['context.do_collection'] = dict(
         ('exact', ['C02', 'C07'], '(old(self)@.phase == Phase::Sleep && run_until == RunUntil::Stop && stop == Stop::FinishCycle) ==> exact_final(old(self)@, final(self)@) && exact_final_shells(old(self)@, final(self)@)'),
         # C07: finish_marking called asleep (marking began in this call, no mutation since): is_dead is true exactly for the unreachable objects
         ('dead_is_unreachable', ['C07'], '(old(self)@.phase == Phase::Sleep && run_until == RunUntil::Stop && stop == Stop::FullyMarked) ==> exact_marked(old(self)@, final(self)@)'),
+        # C07 across any number of collection calls: if marking of this cycle began asleep and only collection calls happened since
+        # (exact_self is established by every wake-up and is a hypothesis here), it still holds afterwards, and whenever the call ends
+        # fully marked, is_dead is true exactly for the objects unreachable from the root
+        ('dead_is_unreachable_xcall', ['C07'], 'exact_self(old(self)@) ==> exact_self(final(self)@) && ((final(self)@.phase == Phase::Mark && !gray_remaining_spec(final(self)@)) ==> dead_exact(final(self)@))'),
         # C08: history is only extended; with FinishCycle, Sleep can only be the last phase entered in this call
         ('history', ['C08'], 'old(self)@.hist.len() <= final(self)@.hist.len() && final(self)@.hist.subrange(0, old(self)@.hist.len() as int) =~= old(self)@.hist'),
         ('cycle_stops_at_sleep', ['C08'], 'stop == Stop::FinishCycle ==> forall|i: int| old(self)@.hist.len() <= i < final(self)@.hist.len() - 1 ==> final(self)@.hist[i] != Phase::Sleep'),
@@ -320,6 +327,7 @@ _k('K.debt.finish_cycle_state', 'k_debt_finish_cycle_state', ['C09', 'C10'], 'fi
 _k('K.debt.finish_cycle_reset', 'k_debt_finish_cycle_reset', ['C09'], 'allocation_debt() == 0 right after finish_cycle(true) (axiom ax_debt_reset)')
 _k('K.debt.sleep_honoured', 'k_debt_sleep_honoured', ['C09'], 'after a debt-free finish: debt 0 while allocations <= wake-up amount, > 0 once they exceed it')
 _k('K.debt.wakeup_formula', 'k_debt_wakeup_formula', ['C09'], 'wake-up amount = max(min_sleep, sleep_factor x survivors)', tier='thorough')
+_k('K.debt.formula_pairing', 'k_debt_formula_pairing', ['C09', 'C10'], 'credit side of the debt formula: debt == max(0, allocated - (marked x mark_factor + traced x trace_factor + remembered x keep_factor + dropped x drop_factor + freed x free_factor)), each counter paired with its own factor', complete='bounded: counters < 2^8, factors fixed to five distinct powers of two, wake-up amount and carried debt 0 (relational float queries over symbolic factors do not terminate in CBMC)')
 _k('K.debt.adjust', 'k_debt_adjust', ['C10'], 'adjust_debt(x) adds exactly x to the artificial-debt term of the formula and touches nothing else')
 _k('K.metrics.counter_frames', 'k_metrics_counter_frames', ['C10', 'C20'], 'each mark_gc_* helper updates exactly its own counters; total_gc_count reads total_gcs')
 
